@@ -76,6 +76,12 @@ func vestGenesis() harness.Genesis {
 			VestingTypes: []vtypes.GenesisVestingType{
 				{Name: "t0", LockupPeriod: 3, LockupPeriodUnit: "second", VestingPeriod: 6, VestingPeriodUnit: "second", Free: sdk.ZeroDec()},
 				{Name: "t5", LockupPeriod: 5, LockupPeriodUnit: "second", VestingPeriod: 10, VestingPeriodUnit: "second", Free: sdk.NewDecWithPrec(5, 1)},
+				// not used by the alphabets; they exist so that export / import sees every unit and zero periods
+				{Name: "cliff-36h", LockupPeriod: 36, LockupPeriodUnit: "hour", VestingPeriod: 0, VestingPeriodUnit: "day", Free: sdk.ZeroDec()},
+				{Name: "nolock-90m", LockupPeriod: 0, LockupPeriodUnit: "day", VestingPeriod: 90, VestingPeriodUnit: "minute", Free: sdk.NewDecWithPrec(1, 1)},
+				{Name: "2d-36h", LockupPeriod: 2, LockupPeriodUnit: "day", VestingPeriod: 36, VestingPeriodUnit: "hour", Free: sdk.OneDec()},
+				{Name: "61s-61m", LockupPeriod: 61, LockupPeriodUnit: "second", VestingPeriod: 61, VestingPeriodUnit: "minute", Free: sdk.MustNewDecFromStr("0.333333333333333333")},
+				{Name: "zero-zero", LockupPeriod: 0, LockupPeriodUnit: "day", VestingPeriod: 0, VestingPeriodUnit: "day", Free: sdk.ZeroDec()},
 			},
 			VestingAccountTraces: []vtypes.VestingAccountTrace{},
 		},
@@ -179,6 +185,13 @@ func vestEvents(c vestCfg) []Ev {
 			}
 			now := v.Ctx.BlockTime().Unix()
 			return vtypes.NewMsgCreateVestingAccount(harness.AddrS("A"), to, coins(4), now, now+10), "A"
+		}})
+		evs = append(evs, Ev{Name: "createVA(A->fresh,4,start=0)", Build: func(v View) (sdk.Msg, string) {
+			_, to := freshAddr(v)
+			if to == "" {
+				return nil, ""
+			}
+			return vtypes.NewMsgCreateVestingAccount(harness.AddrS("A"), to, coins(4), 0, v.Ctx.BlockTime().Unix()+100*365*86400), "A" // end far beyond any wall clock
 		}})
 		evs = append(evs, Ev{Name: "createVA(A->C,4)", Build: func(v View) (sdk.Msg, string) {
 			now := v.Ctx.BlockTime().Unix()
